@@ -13,7 +13,7 @@ import importlib
 
 from . import env, memdb
 from .core import HarnessError
-from .sched import Sched
+from .sched import Sched, install_threading_shim
 
 T0 = 1000000.0
 STAT_KEYS = ('committedPoints', 'droppedCreates', 'errors', 'creates')
@@ -86,6 +86,7 @@ def run_case(case, trace_cache=True, schemas_text=None, aggregation_text=None, s
   run.stores = []
   run.stop_time = None
   run.log_errors = b.log_errors
+  unshim = lambda: None   # noqa
   try:
     writer = importlib.reload(b.writer)
     for name in ('writeForever', 'writeCachedDataPoints', 'shutdownModifyUpdateSpeed'):
@@ -94,8 +95,9 @@ def run_case(case, trace_cache=True, schemas_text=None, aggregation_text=None, s
     writer.reactor = reactor
     writer.time = sched.time
     run.writer = writer
+    unshim = install_threading_shim(sched, [writer, b.cache, b.util, b.events])
     cache = b.cache.MetricCache()
-    cache.lock = sched.make_lock()
+    cache.lock = sched.make_lock(like=cache.lock)
     run.cache = cache
 
     def snap():
@@ -176,6 +178,7 @@ def run_case(case, trace_cache=True, schemas_text=None, aggregation_text=None, s
     run.update_bucket = writer.UPDATE_BUCKET
     return run
   finally:
+    unshim()
     b.util.time = saved['util.time']
     b.util.sleep = saved['util.sleep']
     b.cache.time = saved['cache.time']
